@@ -181,3 +181,5 @@ func cmdSpecDump(args []string) error {
 func init() {
 	commands["spec-dump"] = cmdSpecDump
 }
+
+func grammarTerminal(s string) grammar.Terminal { return grammar.Terminal(s) }
